@@ -207,11 +207,19 @@ def roman(n: int) -> str:
     return s
 
 
+class _Undefined:
+    """A value the reference does not define (reading it makes the reference abstain)."""
+
+    def __init__(self, why: str):
+        self.why = why
+
+
 def repeat_info(i: int, n: typing.Optional[int]) -> dict:
-    if i >= 26:
-        raise Abstain("letter beyond z")
+    # beyond z the TAL specification's text (z, aa, ab ...) and the Zope implementation simpleTAL follows
+    # (z, ba, bb ...) disagree: not defined here, but only templates that *read* it are given up
+    beyond = _Undefined("letter beyond z")
     d = {"index": i, "number": i + 1, "even": i % 2 == 0, "odd": i % 2 == 1, "start": i == 0,
-         "letter": chr(97 + i), "Letter": chr(65 + i), "roman": roman(i + 1),
+         "letter": chr(97 + i) if i < 26 else beyond, "Letter": chr(65 + i) if i < 26 else beyond, "roman": roman(i + 1),
          "Roman": roman(i + 1).upper()}
     if n is not None:          # unknown for iterators: the generator never asks
         d["end"] = i == n - 1
@@ -292,6 +300,8 @@ class Ref:
                 if key not in val:
                     raise NotFound(path)
                 val = val[key]
+                if isinstance(val, _Undefined):
+                    raise Abstain(val.why)
             elif isinstance(val, (list, tuple)) and key.isdigit():
                 if int(key) >= len(val):
                     raise NotFound(path)
